@@ -323,7 +323,7 @@ class Check:
 
     def known_finding(self, k, what=None):
         line = f"KNOWN-FINDING: property={self.prop} {k['id']}: {what or k['what_fails']}"
-        if line not in self.notes:
+        if not any(n.startswith(f"KNOWN-FINDING: property={self.prop} {k['id']}:") for n in self.notes):
             self.notes.append(line)
             print(line)
 
